@@ -84,6 +84,35 @@ def _dedupe(lits):
     return out
 
 
+def _resolve_bool_locals(st: ast.If, effects: list) -> ast.If:
+    """A test that names a local bound (on this path) to a boolean combination is expanded through that definition,
+    so that `flag = a and not b; if flag:` gives the same literals as `if a and not b:`."""
+    import copy
+
+    defs: dict[str, ast.AST] = {}
+    for e in effects:
+        if isinstance(e, ast.Assign) and len(e.targets) == 1 and isinstance(e.targets[0], ast.Name):
+            v = e.value
+            if isinstance(v, ast.BoolOp) or (isinstance(v, ast.UnaryOp) and isinstance(v.op, ast.Not)):
+                defs[e.targets[0].id] = v
+            else:
+                defs.pop(e.targets[0].id, None)
+        elif isinstance(e, (ast.AugAssign, ast.AnnAssign)) and isinstance(e.target, ast.Name):
+            defs.pop(e.target.id, None)
+    if not defs or not any(isinstance(n, ast.Name) and n.id in defs for n in ast.walk(st.test)):
+        return st
+
+    class R(ast.NodeTransformer):
+        def visit_Name(self, node):
+            if node.id in defs and isinstance(node.ctx, ast.Load):
+                return self.visit(copy.deepcopy(defs[node.id]))
+            return node
+
+    new = copy.copy(st)
+    new.test = R().visit(copy.deepcopy(st.test))
+    return new
+
+
 def enumerate_paths(stmts, max_paths: int = 4096) -> list[Path]:
     """All feasible paths through ``stmts`` (one pass; loops inside are opaque effects)."""
     results: list[Path] = []
@@ -96,6 +125,7 @@ def enumerate_paths(stmts, max_paths: int = 4096) -> list[Path]:
             return
         st, rest = todo[0], todo[1:]
         if isinstance(st, ast.If):
+            st = _resolve_bool_locals(st, effects)
             for alt in _expand(st.test, True):
                 l2 = _dedupe(lits + alt)
                 if _feasible(l2):
@@ -230,6 +260,31 @@ def show(t) -> str:
 _REL = {ast.Gt: ">", ast.Lt: "<", ast.GtE: ">=", ast.LtE: "<=", ast.Eq: "==", ast.NotEq: "!="}
 
 
+def _is_strterm(t) -> bool:
+    return (t[0] == "atom" and isinstance(t[1], str) and len(t[1]) >= 2 and t[1][0] in "'\"" and t[1][-1] == t[1][0]) or (t[0] == "fn" and t[1] == "cat")
+
+
+def _mk_cat(parts) -> tuple:
+    flat = []
+    for p in parts:
+        if p[0] == "fn" and p[1] == "cat":
+            flat.extend(p[2])
+        else:
+            flat.append(p)
+    out = []
+    for p in flat:
+        if out and _is_strterm(p) and p[0] == "atom" and out[-1][0] == "atom" and _is_strterm(out[-1]):
+            import ast as _a
+
+            out[-1] = atom(repr(_a.literal_eval(out[-1][1]) + _a.literal_eval(p[1])))
+        else:
+            out.append(p)
+    out = [p for p in out if not (p[0] == "atom" and p[1] in ("''", '""'))]
+    if len(out) == 1:
+        return out[0]
+    return ("fn", "cat", tuple(out))
+
+
 class TermEval:
     """Evaluate an expression AST to a normalised term.
 
@@ -282,8 +337,20 @@ class TermEval:
             if isinstance(n.op, ast.Not):
                 return ("fn", "not", (v,))
             return ("fn", "~", (v,))
+        if isinstance(n, ast.JoinedStr):
+            parts = []
+            for v in n.values:
+                if isinstance(v, ast.Constant):
+                    parts.append(atom(repr(str(v.value))))
+                elif v.format_spec is None and v.conversion in (-1, 115):
+                    parts.append(self.ev(v.value))
+                else:
+                    return atom(norm(n))
+            return _mk_cat(parts)
         if isinstance(n, ast.BinOp):
             l, r = self.ev(n.left), self.ev(n.right)
+            if isinstance(n.op, ast.Add) and (_is_strterm(l) or _is_strterm(r)):
+                return _mk_cat([l, r])  # string concatenation is not commutative
             if isinstance(n.op, ast.Add):
                 return mk_add([l, r])
             if isinstance(n.op, ast.Sub):
